@@ -114,6 +114,28 @@ def context(x, p):
     compare(x, toks, known(toks))
 
 
+def seeds(x, p):
+    """Concrete programs that use every statement and expression form."""
+    toks = ctx_tokens(p['src'].encode('latin-1'))
+    x.out('n', len(toks))
+    compare(x, toks, known(toks))
+
+
+EVERY = [
+    'do local x,y=1,2 end\nwhile a<b do a=a+1 end\nrepeat a-=1 until a<=0\n',
+    'if a then b() elseif c then d() else e() end\nif (f) g=1 h=2 else i=3\nj=4\n',
+    'for i=1,10,2 do break end\nfor k,v in pairs(t) do goto l end\n::l::\n',
+    'function m.n.o:p(q,r,...) return q,r,... end\nlocal function s() end\n'
+    'local u=function(...) end\n',
+    't={1,2;3,[4]=5,x=6,f(),}\nt[1].a.b["c"]:d(e){f}"g":h()\n',
+    'x=-a+not b..#c^d*e/f%g\\h and i or j~=k!=l==m<n>o<=p>=q\n',
+    'x=a&b|c^^d<<e>>f>>>g<<>h>><i\ny=~a+@b+%c+$d\nz+=1 z..=2 z%=3\n',
+    'return\n', 'return f(a)(b)[c].d, (e), ((f)), {g}, "h", 1, nil, true, '
+    'false, ...\n', ';;a=1;;b=2;\n', 'a.b, c[d], e = f, g\n',
+    'x=function() return function() end end\n',
+    'if a then if b then c() end else d() end\n',
+    'f"s" f[[s]] f{} f() f(a,b) a:b() a:b"s" a:b{} \n',
+]
 Q = {'_budget': 400}
 CONTEXTS = [
     ('if (n) ', '\nn=1\n'), ('do ', ' end\n'), ('function f() ', ' end\n'),
@@ -121,6 +143,7 @@ CONTEXTS = [
     ('t={', '}\n'), ('f(', ')\n'),
 ]
 HARNESSES = [
+    Harness('seeds', seeds, quick=[dict(Q, src=s) for s in EVERY]),
     Harness('kinds', kinds, quick=[dict(Q, k=1), dict(Q, k=2), dict(Q, k=3)],
             thorough=[dict(Q, k=1), dict(Q, k=2), dict(Q, k=3),
                       dict(Q, k=4, _budget=3000)]),
